@@ -286,8 +286,38 @@ func evolveCmd(args []string) int {
 					}
 				}
 			}
-			// the generation's population, genome by genome
+			// all organisms of the generation are marshalled before any is unmarshalled, as the parallel executor does
 			res := &result{}
+			if pn := vhu.Guard(func() {
+				var datas [][]byte
+				for _, o := range pop.Organisms {
+					d, err := o.MarshalBinary()
+					if err != nil {
+						res.fail("codec/organism/write", "Organism.MarshalBinary failed: %v", err)
+						return
+					}
+					datas = append(datas, d)
+				}
+				res.evals += len(datas)
+				for oi, o := range pop.Organisms {
+					b := &genetics.Organism{}
+					if err := b.UnmarshalBinary(datas[oi]); err != nil {
+						res.fail("codec/organism/read", "Organism.UnmarshalBinary rejects what MarshalBinary wrote: %v", err)
+						return
+					}
+					d := diffGenomes(project(o.Genotype, false), project(b.Genotype, false), true)
+					if !sameBits(b.Fitness, o.Fitness) || b.Generation != o.Generation {
+						d = append(d, fmt.Sprintf("fitness/generation (%s, %d), original (%s, %d)", vhu.Fstr(b.Fitness), b.Generation, vhu.Fstr(o.Fitness), o.Generation))
+					}
+					if len(d) > 0 {
+						res.fail("codec/organism/roundtrip", "binary forms of a whole generation, unmarshalled after all were marshalled: organism %d is not restored: %s", oi, strings.Join(d, "; "))
+						return
+					}
+				}
+			}); pn != "" {
+				res.fail("codec/evolved/panic", "marshalling a generation panicked: %s", pn)
+			}
+			// the generation's population, genome by genome
 			if pn := vhu.Guard(func() { popRoundTrip(all, nil, nil, res); bySpeciesRoundTrip(pop, res) }); pn != "" {
 				res.fail("codec/evolved/panic", "population round trip panicked: %s", pn)
 			}
